@@ -7,7 +7,6 @@ use crate::ops::{parse_op, Op};
 use crate::sexp::{get_at, le_num, nav_step, parse_toks, Nav, Shape, Step, Tok, Val};
 use hx_common::{catch, hex, Recorder};
 use star_frame::unsize::wrapper::{ExclusiveWrapper, ExclusiveWrapperTopMeta, SharedWrapper};
-use star_frame::unsize::UnsizedType;
 
 #[derive(Debug, Clone, Copy, PartialEq, Eq)]
 pub enum Prop {
@@ -17,6 +16,7 @@ pub enum Prop {
 }
 
 pub struct Header {
+    #[allow(dead_code)]
     pub id: String,
     pub shape: Option<Shape>,
     pub init: Option<Tok>,
@@ -215,12 +215,18 @@ impl Oracle<'_, '_> {
         // the state is wrong from here on: running more ops on it could take the process down
         self.stop = true;
     }
-    /// a known-finding class: recorded, but checking continues
+    /// A failure-atomicity class (C06's subject): partial application of a composite op, or an
+    /// initialiser failing after the resize. Recorded as an oracle failure by the C06 run only — the C01 /
+    /// C02 runs follow the implementation's post-error value and keep checking everything else.
     fn known(&mut self, class: &str, detail: String) {
         if self.muted {
             return;
         }
-        self.cx.rec.fail(class, &detail);
+        if self.cx.prop == Prop::C06 {
+            self.cx.rec.fail(class, &detail);
+        } else {
+            self.cx.rec.bump(&format!("note:c06_class:{class}"));
+        }
     }
 
     fn check_state<T: Node + ?Sized>(&mut self, obs: &Obs, levels: &[Vec<Step>], access: &Access) {
@@ -274,7 +280,7 @@ impl Oracle<'_, '_> {
             }
         }
         if !access.canary_ok() {
-            return self.fail("write_past_capacity", "canary behind orig+10240 overwritten".into());
+            return self.fail("write_past_capacity", "canary in front of the data or behind orig+10240 overwritten".into());
         }
     }
 }
